@@ -74,10 +74,32 @@ class LowerDimExpr:
 
     def _convert_op(self, name: str, operands: list[ir.Value]) -> ir.Value:
         if name == "floordiv":
+            # ONNX integer Div truncates toward zero; JAX dimension expressions
+            # use floor division. a - (a mod b) is an exact multiple of b
+            # (integer Mod takes the sign of the divisor), so dividing it
+            # yields floor(a / b) for negative numerators as well.
+            remainder = cast(
+                ir.Value,
+                self.ctx.builder.Mod(
+                    operands[0],
+                    operands[1],
+                    _outputs=[self.ctx.fresh_name("dimexpr_floordiv_mod")],
+                ),
+            )
+            self._set_metadata(remainder)
+            floored = cast(
+                ir.Value,
+                self.ctx.builder.Sub(
+                    operands[0],
+                    remainder,
+                    _outputs=[self.ctx.fresh_name("dimexpr_floordiv_sub")],
+                ),
+            )
+            self._set_metadata(floored)
             result = cast(
                 ir.Value,
                 self.ctx.builder.Div(
-                    operands[0],
+                    floored,
                     operands[1],
                     _outputs=[self.ctx.fresh_name("dimexpr_div")],
                 ),
